@@ -493,7 +493,17 @@ func TestVerifC25(t *testing.T) {
 			}
 			run([]string{b.firsts[i]})
 		}
+		var blockCapped int32
 		eng.ParallelFor(len(items), func(ii int) {
+			if atomic.LoadInt32(&blockCapped) != 0 {
+				return
+			}
+			if r.TimeUp() {
+				if atomic.CompareAndSwapInt32(&blockCapped, 0, 1) {
+					r.Cap("time", fmt.Sprintf("stopped inside block %s at about work item %d of %d; completed blocks are listed in coverage.vectors_per_block", b.name, ii, len(items)))
+				}
+				return
+			}
 			argv := make([]string, 0, b.maxLen)
 			argv = append(argv, b.firsts[items[ii].i], b.rest[items[ii].j])
 			var rec func()
@@ -510,6 +520,12 @@ func TestVerifC25(t *testing.T) {
 			}
 			rec()
 		})
+		if blockCapped != 0 {
+			capped = true
+			perBlock[b.name+" (incomplete)"] = cnt
+			r.Add("vectors", cnt)
+			break
+		}
 		perBlock[b.name] = cnt
 		r.Add("vectors", cnt)
 	}
